@@ -9,7 +9,8 @@ Proof (Props/C15.lean, helper lemmas in Lemmas/LoadSpec.lean), for ALL images / 
    the eagerly loaded part shows: all header fields, name, whole data buffer, data size),
    `freeData_getData`, `interleaving_eq`, `seg_interleaving_eq` (list induction over any sequence of
    request / release / arbitrary disturbance of the stream's position and error state);
- * whole load, every image without translation (length < 2^63): `lazy_eq_eager` / `lazy_eq_eager_obs`
+ * whole load, every stream (length < 2^63) under EVERY address translation table — no hypothesis on the
+   table or on what the container holds (since the F16 repair): `lazy_eq_eager` / `lazy_eq_eager_obs`
    : if the eager load() succeeds, the lazy load() succeeds with the same header and, for every section and
    segment and any interleaving, the same observations (simulation of the two runs through the section loop
    `loadSectionsLoop_sim`, the name step `loadNames_sim`, the segment loop `loadSegmentsLoop_sim`).
@@ -24,19 +25,22 @@ Proof (Props/C15.lean, helper lemmas in Lemmas/LoadSpec.lean), for ALL images / 
    with the table succeeds and shows the same header, fields, names, members and data as load on the
    plain image (eager or lazy, either stream kind, independently on both sides).  Non-vacuity: a concrete
    container/table for the C02 example image satisfies `Represents` (`decide`).
- Not proved (stated limits): lazy = eager *with* a translation table on images that are not well-formed
- (there `stream_size = SIZE_MAX` makes every bound vacuous; in the model a short eager data read then
- leaves failbit set and later section headers are not read, while the lazy run reads them — outside the
- property's translation clause, which is claimed for well-formed images only; see ASSUMPTIONS).  This is
- machine-checked as `lazy_eager_translated_truncated_witness` and reproduced on the real code:
- corpus/c15/f16-candidate-translated-truncated-container.case.txt (a CANDIDATE finding, deliberately not a
- corpus case and not in known_findings.json: the integrator decides whether C15 claims it).
+ Former finding F16 (fixes/16-stream-size-with-translator.patch): with a translation table `stream_size` was
+ SIZE_MAX, so an eager load of a truncated container made a short data read, kept failbit and lost every later
+ section header, while the lazy load read them.  The loader now records the real stream size with a table too
+ (model: `streamSizeOf`, proved independent of the table: `streamSizeOf_tr_indep_ls`), which is what lets
+ `lazy_eq_eager` drop its former hypothesis `o.trans = []`; on the former witness both modes agree:
+ `lazy_eager_translated_truncated_agree` (corpus/c15/f16-translated-truncated-container.case).
 Correspondence + oracle:
 object 0 loads the image eagerly, object 1 lazily and is then driven through a random interleaving of
 data requests and releases (length <= 24) before both are observed; object 2 loads a container
 stream in which the image's pieces sit at displaced positions with a translation table (1-6 ranges
 cut at table/section boundaries, random order, incl. ranges that map nothing); the oracle requires
-identical observations.  dump text lazy-vs-eager is compared implementation-to-implementation only.
+identical observations.  A second stream of cases (`gen_translated_pairs`) loads ONE container eagerly
+(object 0) and lazily (object 1) under the SAME table, where the container is intact, truncated, cut in
+the middle of section/segment data, has table entries that map beyond its end or claim more than was
+placed, or is byte-corrupted; the same lazy = eager oracle applies.
+dump text lazy-vs-eager is compared implementation-to-implementation only.
 """
 from families.loadcommon import *
 
@@ -56,22 +60,28 @@ THEOREMS = ["ElfioVerif.C15.isolatedRead_state_independent", "ElfioVerif.C15.iso
             "ElfioVerif.C15.lazy_eq_eager_obs", "ElfioVerif.C15.lazy_eq_eager_needs_ok",
             "ElfioVerif.loadBody_rep", "ElfioVerif.load_gate_rep",
             "ElfioVerif.C15.represents_plain", "ElfioVerif.C15.load_eq_spec_tr",
-            "ElfioVerif.C15.translated_eq_plain", "ElfioVerif.C15.lazy_eager_translated_truncated_witness"]
+            "ElfioVerif.C15.translated_eq_plain", "ElfioVerif.C15.lazy_eager_translated_truncated_agree",
+            "ElfioVerif.streamSizeOf_tr_indep_ls"]
 SITES = ["conv", "load_s", "sec32_load", "sec64_load", "seg32_load", "seg64_load"]
 RULE = ("images: encoder-built well-formed (4 configurations), small bundled examples, and mutated images "
         "(tools/elfspec.mutate incl. truncation) — eager object vs lazy object under a random interleaving of "
         "`sec i`/`secfree i`/`seg j`/`segfree j` of length <= 24, then both fully observed; for well-formed images "
-        "additionally a container stream with a translation table of 1-6 ranges. non-trivial = the image loads "
+        "additionally a container stream with a translation table of 1-6 ranges; plus eager vs lazy under the same "
+        "table on intact / truncated / cut-in-data / mapping-beyond-the-end / corrupted containers. non-trivial = the image loads "
         "and the interleaving contains at least one release followed by a request; distinct by md5")
 ASSUMPTIONS = ["the stream stays open and unmodified while the lazily loaded object lives",
-               "translation equality is claimed for well-formed images only (stream_size = SIZE_MAX otherwise)"]
+               "translated = plain is claimed for well-formed images whose read ranges the table represents",
+               "the stream can seek to its end (string- and regular-file-backed streams); for streams that cannot "
+               "(/proc/<pid>/mem) the loader keeps stream_size = SIZE_MAX and the read bounds stay vacuous"]
 TRUSTED = []
 KEEP_FIRST = 2
 
 
-def container(rng, img):
+def container(rng, img, last=None, force=()):
     """cut the image into 1-6 ranges at table/section boundaries and place them, shuffled and with
-    gaps, in a container; returns (container bytes, table [(start,size,mapped)])"""
+    gaps, in a container; returns (container bytes, table [(start,size,mapped)]).
+    `force`: offsets that become cuts if no read range straddles them; `last`: the range holding
+    this offset is placed at the end of the container"""
     d = elfspec.decode(img)
     cuts = {0, len(img)}
     if d:
@@ -85,10 +95,13 @@ def container(rng, img):
         cand = {a for a, n in reads} | {a + n for a, n in reads}
         cand = [c for c in cand if 0 < c < len(img) and not any(a < c < a + n for a, n in reads)]
         rng.shuffle(cand)
-        cuts |= set(cand[:rng.randint(0, 5)])
+        cuts |= set(cand[:rng.randint(0, 5)]) | (set(force) & set(cand))
     cuts = sorted(cuts)
     ranges = [(cuts[i], cuts[i + 1] - cuts[i]) for i in range(len(cuts) - 1)]
     order = list(range(len(ranges))); rng.shuffle(order)
+    if last is not None:
+        hit = [i for i in order if ranges[i][0] <= last < ranges[i][0] + ranges[i][1]]
+        order = [i for i in order if i not in hit] + hit
     cont = bytearray(rng.choice([0, 7, 64]))
     table = []
     for i in order:
@@ -102,7 +115,118 @@ def container(rng, img):
     return bytes(cont), table
 
 
+def translated_pos(table, off):
+    """address_translator::operator[] : first entry containing `off`, identity otherwise"""
+    for st, sz, mp in table:
+        if st <= off < st + sz:
+            return off - st + mp
+    return off
+
+
+def damaged_container(rng, img):
+    """a container + table for `img` that no longer represents it: the stream is shorter than the table
+    promises, pieces are cut inside section/segment data, entries map beyond the end or claim more than
+    was placed, bytes are corrupted.  returns (container, table, label)"""
+    try:
+        cont, table = container(rng, img)
+    except Exception:
+        cont, table = bytes(img), [(0, len(img), 0)]
+    cont = bytearray(cont); table = list(table)
+    k = rng.random()
+    try:
+        d = elfspec.decode(img)
+    except Exception:
+        d = None
+    if k < 0.25 and len(cont) > 1:
+        cont = cont[:rng.randrange(1, len(cont))]; how = "truncated"
+    elif k < 0.5 and d:
+        # cut in the middle of the data of one section / segment (at its translated position)
+        rs = [(x["sh_offset"], x["sh_size"]) for x in d["sections"] if x["data"]] + \
+             [(g["p_offset"], g["p_filesz"]) for g in d["segments"] if g["data"]]
+        rs = [(a, n) for a, n in rs if n > 0]
+        if rs:
+            # the piece holding the victim's data goes last (so the other pieces, the tables among
+            # them, survive) and is cut inside that data
+            a, n = rng.choice(rs)
+            try:
+                c2, t2 = container(rng, img, last=a, force=(a, a + n))
+                cont, table = bytearray(c2), list(t2)
+            except Exception:
+                pass
+            cut = translated_pos(table, a) + rng.randrange(0, n)
+            cont = cont[:max(1, min(cut, len(cont)))]
+        how = "cut-in-data"
+    elif k < 0.65:
+        # one entry maps (partly or wholly) beyond the end of the stream
+        i = rng.randrange(len(table)); st, sz, mp = table[i]
+        table[i] = (st, sz, len(cont) - rng.randrange(0, sz + 1) + rng.choice([0, 0, 1, 100]))
+        how = "maps-beyond-end"
+    elif k < 0.75:
+        # one entry claims more image bytes than were placed for it
+        i = rng.randrange(len(table)); st, sz, mp = table[i]
+        table[i] = (st, sz + rng.choice([1, 4, 64, 4096]), mp)
+        how = "entry-too-long"
+    elif k < 0.85:
+        # the last placed piece is incomplete
+        i = max(range(len(table)), key=lambda j: table[j][2]); st, sz, mp = table[i]
+        if sz > 1 and mp < len(cont):
+            cont = cont[:mp + rng.randrange(0, sz)]
+        how = "last-piece-short"
+    else:
+        cont = bytearray(elfspec.mutate(rng, bytes(cont)) if len(cont) >= 16 else cont)
+        how = "mutated-container"
+    if not cont:
+        cont = bytearray(1)
+    return bytes(cont), table, how
+
+
+def interleaving(rng, ns, ng):
+    inter = []
+    for _ in range(rng.randint(0, 24)):
+        k = rng.random()
+        if k < 0.4 and ns: inter.append(f"sec {rng.randrange(ns)}")
+        elif k < 0.7 and ns: inter.append(f"secfree {rng.randrange(ns)}")
+        elif k < 0.85 and ng: inter.append(f"seg {rng.randrange(ng)}")
+        elif ng: inter.append(f"segfree {rng.randrange(ng)}")
+    return inter
+
+
+def gen_translated_pairs(rng, tier):
+    """eager vs lazy under the SAME translation table, on containers that are intact, truncated or
+    otherwise damaged (the lazy = eager clause does not care whether the table is a faithful one)"""
+    n = 60 if tier == "quick" else 600
+    for i in range(n):
+        cls, enc = CFGS[i % 4]
+        img = elfspec.encode(elfspec.random_model(rng, cls, enc))
+        wf = True
+        if rng.random() < 0.25:
+            img = elfspec.mutate(rng, img); wf = False
+        if rng.random() < 0.15:
+            try:
+                cont, table = container(rng, img)
+            except Exception:
+                cont, table = img, [(0, len(img), 0)]
+            how = "intact"
+        else:
+            cont, table, how = damaged_container(rng, img)
+        ns, ng = counts(img)
+        obs = observe_lines(img, max_sec=24, max_seg=8)
+        inter = interleaving(rng, ns, ng)
+        kind = rng.choice(["str", "str", "file"])
+        tl = "trans " + " ".join(f"{a} {b} {c}" for a, b, c in table)
+        lines = ["obj 0", tl, f"load {hx(cont)} lazy=0 kind={kind}"] + obs + \
+                ["obj 1", tl, f"load {hx(cont)} lazy=1 kind={kind}"] + inter + obs
+        yield {"id": f"t{i}", "lines": lines,
+               "meta": {"nobs": len(obs), "ninter": len(inter), "wf": wf, "trans": False, "tpair": True,
+                        "damage": how}}
+
+
 def gen_cases(rng, tier):
+    yield from gen_plain(rng, tier)
+    yield from gen_translated_pairs(rng, tier)
+
+
+def gen_plain(rng, tier):
     n = 80 if tier == "quick" else 800
     ex_small = [b for f, b in examples(20000)]
     for i in range(n):
@@ -117,13 +241,7 @@ def gen_cases(rng, tier):
             img = elfspec.mutate(rng, elfspec.encode(elfspec.random_model(rng, cls, enc))); wf = False
         ns, ng = counts(img)
         obs = observe_lines(img, max_sec=24, max_seg=8)
-        inter = []
-        for _ in range(rng.randint(0, 24)):
-            k = rng.random()
-            if k < 0.4 and ns: inter.append(f"sec {rng.randrange(ns)}")
-            elif k < 0.7 and ns: inter.append(f"secfree {rng.randrange(ns)}")
-            elif k < 0.85 and ng: inter.append(f"seg {rng.randrange(ng)}")
-            elif ng: inter.append(f"segfree {rng.randrange(ng)}")
+        inter = interleaving(rng, ns, ng)
         kind = rng.choice(["str", "str", "file"])
         lines = ["obj 0", f"load {hx(img)} lazy=0 kind={kind}"] + obs + \
                 ["obj 1", f"load {hx(img)} lazy=1 kind={kind}"] + inter + obs
@@ -145,11 +263,12 @@ def oracle(case, out):
         if o.startswith("FAULT"):
             return [{"signature": "fault:" + case["lines"][min(i, len(case["lines"]) - 1)].split()[0], "what": o}]
     n = case["meta"]["nobs"]; m = case["meta"]["ninter"]
-    need = 2 + n + 2 + m + n
+    p = 1 if case["meta"].get("tpair") else 0        # a `trans` line precedes each `load`
+    need = 2 + p + n + 2 + p + m + n
     if len(out) < need:
         return []
-    r0 = strip_allocs(out[1]); e = out[2:2 + n]
-    r1 = strip_allocs(out[3 + n]); l = out[4 + n + m:4 + n + m + n]
+    r0 = strip_allocs(out[1 + p]); e = out[2 + p:2 + p + n]
+    r1 = strip_allocs(out[3 + 2 * p + n]); l = out[4 + 2 * p + n + m:4 + 2 * p + n + m + n]
     v = []
     if r0 == "load=false" and r1 == "load=true":
         return [{"signature": "lazy-load-result:eager-false-lazy-true",
@@ -157,7 +276,7 @@ def oracle(case, out):
     if r0 != r1:
         v.append({"signature": "lazy-load-result", "what": f"eager {r0} vs lazy {r1}"})
     elif r0.startswith("load=true"):   # after a failed load the object's state is unspecified
-        for ln, a, b in zip(case["lines"][2:2 + n], e, l):
+        for ln, a, b in zip(case["lines"][2 + p:2 + p + n], e, l):
             if a != b:
                 v.append({"signature": "lazy-observation:" + ln.split()[0], "what": f"`{ln}`: eager {a[:100]} | lazy {b[:100]}"}); break
     if case["meta"]["trans"] and not v and len(out) >= need + 3 + n:
@@ -173,9 +292,14 @@ def oracle(case, out):
     return v
 
 
+def loaded(case, out):
+    p = 1 if case["meta"].get("tpair") else 0
+    return len(out) > 1 + p and out[1 + p].startswith("load=true")
+
+
 def nontrivial(case, out):
     ls = case["lines"]
-    ok = len(out) > 1 and out[1].startswith("load=true")
+    ok = loaded(case, out)
     freed = False
     for l in ls:
         if l.startswith("secfree") or l.startswith("segfree"): freed = True
@@ -186,5 +310,6 @@ def nontrivial(case, out):
 def classify(case, out):
     ks = ["wf" if case["meta"]["wf"] else "mutated"]
     if case["meta"]["trans"]: ks.append("translated")
-    ks.append("loaded" if len(out) > 1 and out[1].startswith("load=true") else "rejected")
+    if case["meta"].get("tpair"): ks += ["translated-pair", "container:" + case["meta"].get("damage", "?")]
+    ks.append("loaded" if loaded(case, out) else "rejected")
     return ks
